@@ -181,6 +181,16 @@ def rl():
     return ([1, 2, 3], [i * 2 for i in range(4)], base[1:3], zip([1, 2], [3, 4]), enumerate([5, 6]), g,
             [[1, 2], [3]])
 ''',
+    # a callee with no parameters and no locals (c0), called by z: transformations of z splice c0's body
+    'z0': '''
+@fp.fpy
+def c0():
+    return fp.rational(1, 3) + fp.rational(1, 3)
+
+@fp.fpy
+def z(r):
+    return r * r * c0()
+''',
     # a list captured as a free variable: kw index-assigns into it, kr only reads it
     'k': '''
 K = [1.0, 2.0, 3.0]
@@ -209,6 +219,7 @@ def p(x, y):
 FN_HOME = {'f': ('fgh', 'f'), 'g': ('fgh', 'g'), 'h': ('fgh', 'h'), 's': ('s', 's'), 'p': ('pq', 'p'),
            'q': ('pq', 'q'), 'fm': ('pq', 'fm'), 'gm': ('gm', 'gm'), 'kw': ('k', 'kw'), 'kr': ('k', 'kr'),
            'f2': ('alt', 'f'), 'p2': ('alt', 'p'),
+           'c0': ('z0', 'c0'), 'z': ('z0', 'z'),
            'wr': ('lb', 'wr'), 'wl': ('lb', 'wl'), 'rr': ('lb', 'rr'), 'rl': ('lb', 'rl')}
 
 CTX_MAKERS = {
@@ -232,6 +243,8 @@ ARGS = {
     'kr': lambda: (1,),
     'f2': lambda: (3, 7),
     'p2': lambda: (3, 7),
+    'c0': lambda: (),
+    'z': lambda: (1.5,),
     'wr': lambda: (99,),
     'wl': lambda: (99,),
     'rr': lambda: (),
@@ -242,6 +255,7 @@ TRANSFORMS = {
     'simplify': lambda fn: st.simplify(fn),
     'unroll': lambda fn: st.unroll_for(fn),
     'inline': lambda fn: st.inline(fn),
+    'inline1': lambda fn: st.inline(fn, recursive=False),
 }
 
 
@@ -348,6 +362,11 @@ class World:
             self.mods[mod] = load_source(MODULES[mod])
         return getattr(self.mods[mod], attr)
 
+    def texts(self):
+        """AST text of every Function of the modules loaded so far: {name: text}."""
+        return {name: getattr(self.mods[mod], attr).format()
+                for name, (mod, attr) in FN_HOME.items() if mod in self.mods}
+
 
 def scribble(obj):
     """What a Python caller may do with a value it was handed back: overwrite a slot of every list
@@ -406,6 +425,9 @@ def _collect_lists(obj, into: dict):
 # ---------------------------------------------------------------------------
 # history events
 
+PRISTINE_TEXT: dict = {}      # program text of every harness function, freshly loaded, nothing transformed
+
+
 def build_menu():
     menu = []
     for fn in ('f', 'g', 'h'):
@@ -416,7 +438,9 @@ def build_menu():
              'ops:sqrt@A', 'ops:add@C', 'ops:round@B',
              'stoch', 'engines', 'gmp-caller',
              'call:kw@-', 'call:kr@A',
-             'call:wr@-', 'call:wl@-', 'call:rr@-', 'call:rl@-', 'pymut:rr@-', 'pymut:rl@-', 'pymut:g@A']
+             'call:wr@-', 'call:wl@-', 'call:rr@-', 'call:rl@-', 'pymut:rr@-', 'pymut:rl@-', 'pymut:g@A',
+             'call:z@A', 'call:c0@A', 'xf:inline1:z@A', 'xf:inline:z@A', 'xf:simplify:z@A',
+             'fresh:z@A', 'fresh:c0@A', 'fresh:h@B']
     return menu
 
 
@@ -424,7 +448,8 @@ def build_menu():
 CORE_MENU = ['call:f@A', 'call:f@B', 'call:f@-', 'call:g@C', 'call:h@A', 'call:h@-', 'call:f2@A',
              'call:s@B', 'xf:simplify:f@A', 'xf:unroll:s@B', 'xf:inline:h@C',
              'ops:sqrt@A', 'stoch', 'gmp-caller', 'call:kw@-',
-             'call:wr@-', 'call:rr@-', 'pymut:rr@-']
+             'call:wr@-', 'call:rr@-', 'pymut:rr@-',
+             'xf:inline1:z@A', 'call:z@A', 'fresh:c0@A']
 
 
 def do_event(w: World, ev: str):
@@ -436,11 +461,26 @@ def do_event(w: World, ev: str):
     if kind == 'xf':
         tname, _, rest2 = rest.partition(':')
         name, _, c = rest2.partition('@')
+        fn = w.fn(name)
+        texts_before = w.texts()
         try:
-            t = TRANSFORMS[tname](w.fn(name))
+            t = TRANSFORMS[tname](fn)
         except Exception as e:
             return ('xf-raise', type(e).__name__), []
-        return call_judged(t, ARGS[name](), w.ctx(c), w.earlier)
+        # a transformation derives a copy: its input and every callee keep their program text
+        fails = []
+        for other, text in w.texts().items():
+            if text != texts_before[other]:
+                fails.append(('transform-modified-input',
+                              f'{tname}({name}) changed the program text of `{other}` to:\n{text}\nit was:\n'
+                              f'{texts_before[other]}' + ('' if texts_before[other] == PRISTINE_TEXT[other]
+                                                          else ' (already not the pristine text)')))
+        obs, fs = call_judged(t, ARGS[name](), w.ctx(c), w.earlier)
+        return obs, fails + fs
+    if kind == 'fresh':
+        # the original Function evaluated on a BytecodeInterpreter that has compiled nothing yet
+        name, _, c = rest.partition('@')
+        return call_judged(w.fn(name).with_rt(BytecodeInterpreter()), ARGS[name](), w.ctx(c), w.earlier)
     if kind == 'pymut':
         # call, then the Python caller edits the value it was handed back (its own value); the
         # observation is the result as returned, before the edit
@@ -777,7 +817,7 @@ class Check(BaseCheck):
         # (menu, depth) pairs explored exhaustively
         if tier == 'quick':
             self.spaces = [('full', self.menu, 2), ('core', CORE_MENU, 3)]
-            self.extra = ('full', self.menu, 3, 16)       # 1/16 of the depth-3 histories over the full menu
+            self.extra = ('full', self.menu, 3, 64)       # 1/64 of the depth-3 histories over the full menu
         else:
             self.spaces = [('full', self.menu, 3), ('core', CORE_MENU, 4)]
             self.extra = None
@@ -791,6 +831,11 @@ class Check(BaseCheck):
         self._sc_state = {}
         # pristine observations: the one-event history on a fresh world, computed before anything else
         # runs in this process
+        if not PRISTINE_TEXT:
+            w0 = World()
+            for name in FN_HOME:
+                w0.fn(name)
+            PRISTINE_TEXT.update(w0.texts())
         self.pristine = {}
         for ev in self.menu:
             self.pristine[ev] = do_event(World(), ev)[0]
@@ -814,7 +859,7 @@ class Check(BaseCheck):
     def bounds(self):
         return {'history_spaces': [{'menu': n, 'events': len(mn), 'depth': d,
                                     'histories': histories.space_size(len(mn), d)} for n, mn, d in self.spaces],
-                'quick_extra_slice': ('1/16 of the depth-3 histories over the full menu, rotated by VERIF_SEED'
+                'quick_extra_slice': ('1/64 of the depth-3 histories over the full menu, rotated by VERIF_SEED'
                                       if self.extra else None),
                 'preemption_bound': self.bound, 'preemption_bound_3_threads': 1 if self.tier == 'thorough' else None,
                 'drivers': self.drivers() + [CANARY],
@@ -1003,15 +1048,19 @@ class Check(BaseCheck):
                 d = seen.setdefault(ev, {})
                 d[o] = d.get(o, 0) + 1
             if fails:
-                f = fails[0]
-                ev = f['event']
-                fam = ev.split('@')[0]          # event without its context: call:f, xf:simplify:f, ops:sqrt, stoch
-                if not self._self_contained(r, h, (f['kind'], fam)):
-                    r.count('hist_failures_not_emitted')   # over the per-class cap, or not failing by itself
-                    return
-                r.violate({'exploration': 'histories', 'kind': f['kind'], 'family': fam},
-                          {'kind': 'history', 'history': list(h)},
-                          f'history {list(h)}: ' + '; '.join(x['text'] for x in fails))
+                done = set()
+                for f in fails:
+                    ev = f['event']
+                    fam = ev.split('@')[0]      # event without its context: call:f, xf:simplify:f, ops:sqrt, stoch
+                    if (f['kind'], fam) in done or len(done) >= 3:
+                        continue
+                    done.add((f['kind'], fam))
+                    if not self._self_contained(r, h, (f['kind'], fam)):
+                        r.count('hist_failures_not_emitted')   # over the per-class cap, or not failing by itself
+                        continue
+                    r.violate({'exploration': 'histories', 'kind': f['kind'], 'family': fam},
+                              {'kind': 'history', 'history': list(h)},
+                              f'history {list(h)}: ' + '; '.join(x['text'] for x in fails))
             elif not sampled[0] and len(h) == sample_depth and len(set(h)) == len(h):
                 sampled[0] = True
                 r.sample({'history': list(h), 'observed': [str(o) for o in obs]}, limit=1)
